@@ -617,6 +617,7 @@ pub fn run_unit(name: &str, o: &mut Out, tier: &str, seed: u64) -> bool {
         "daterange" => unit_daterange(o, tier, &mut r),
         "qibla" => unit_qibla(o, tier, &mut r),
         "bounded" => unit_bounded(o, tier, &mut r),
+        "cli" => crate::f_cli::unit_cli(o, tier, &mut r),
         "f64cmp" => crate::f_bounded::unit_f64cmp(o, tier, &mut r),
         "parse" => crate::f_bounded::unit_parse(o, tier, &mut r),
         _ => return false,
